@@ -399,8 +399,12 @@ pub fn run_case(ctx: &Ctx, case: &Case) -> Outcome {
                     let empty = pm.keys().all(|k| k.starts_with('$'));
                     // a joiner that restarts with its op-log but without ever having snapshotted its databases has lost
                     // them and still asks for an incremental synchronisation (C16-log-keeps-records-of-lost-databases)
+                    // (a database created during the rejoin before the link to the joiner existed is backlog like one created
+                    // while it was away: it has to come with the answer to replicate-since)
                     let when = if when == "created-while-the-joiner-was-away" && live_before_since {
                         "created-while-the-joiner-was-away|a-live-operation-reached-the-joiner-before-its-replicate-since"
+                    } else if when == "created-during-the-rejoin" && live_before_since {
+                        "created-during-the-rejoin|a-live-operation-reached-the-joiner-before-its-replicate-since"
                     } else {
                         when
                     };
